@@ -487,6 +487,11 @@ static std::string owner_key(OwnerRun& r)
   k += "|c=" + std::to_string((unsigned)r.sb.app_ptr_map.counter) + "|";
   for (auto& kv : r.sb.app_ptr_map.pointer_map) k += std::to_string((unsigned)kv.first) + ",";
   k += "|R" + std::to_string(r.m.recreated);
+  {
+    // the operation applied last (see C13: state a change adds to the library is not among the fields this key reads)
+    auto pos = r.hist.rfind(' ');
+    k += "|last=" + (pos == std::string::npos ? std::string() : r.hist.substr(pos + 1));
+  }
   k += "|dead=";
   for (auto t : r.m.ever)
     if (!r.m.live.count(t)) k += std::to_string(t) + ",";
